@@ -405,12 +405,14 @@ class PrettyPrinter:
 
         # expressions can be one of a string or an expression in brackets
         if any(
-            i in ["oneOf", "anyOf"] for i in attr_props
+            i in ["oneOf", "anyOf", "allOf"] for i in attr_props
         ):  # and check that type string is in list
             if "oneOf" in attr_props:
                 options_list = attr_props["oneOf"]
-            else:
+            elif "anyOf" in attr_props:
                 options_list = attr_props["anyOf"]
+            else:
+                options_list = attr_props["allOf"]
             if self.quoter.is_string(value):
                 if self.quoter.in_parenthesis(value):
                     pass
